@@ -560,7 +560,7 @@ class World:
                     "C06",
                     v["sig"],
                     f"after {name} (hop {hop}): {v['detail']} [cursor path {v['path']}]",
-                    {"op": name, "sig": v["sig"], "stmt": v["stmt_class"]},
+                    dict({"op": name, "sig": v["sig"], "stmt": v["stmt_class"]}, **({"attr": v["attr"]} if v.get("attr") else {})),
                 )
             if vs:
                 break
